@@ -373,9 +373,8 @@ func run(c Case) ev.Verdict {
 			return ev.Fail("command %d %q: result %q, want %q", i, cmds[i], r.Result, want)
 		}
 
-		if string(r.RawResult) != want {
-			return ev.Fail("command %d %q: raw result %q, want %q", i, cmds[i], r.RawResult, want)
-		}
+		// (RawResult is not looked at: the statement speaks of what a send returns as its result;
+		// what else the response keeps of the raw bytes is the library's business)
 	}
 
 	// what the device received: each command followed by one return, in order; bare returns
